@@ -469,8 +469,8 @@ Definition m_param_count (m : midline) : nat :=
 Definition m_shapes_agree (m : midline) : Prop :=
   forall u, In u (ipsi_leaves m ++ contra_leaves m) ->
     map fst (u_T u) = map fst (u_T (ext_i m)) /\ map fst (u_L u) = map fst (u_L (ext_i m)).
-(** NOT PROVED in SyncProofs.v (the harness checks it on generated histories, stream
-    "recovery"); kept as the precise statement of what is left for Midline *)
+(** proved in SyncMidlinePositional.v (properties/C11_recovery_positional.v); the harness also checks it on generated
+    histories, stream "recovery" *)
 Definition C11_midline_full_assignment_restores_stmt : Prop :=
   forall m v rest, m_wf m = true -> m_shapes_agree m -> m_config_sim m ->
     length v = m_param_count m ->
